@@ -41,7 +41,8 @@ def run_cfg(o, slow=False):
     try:
         from .common import finish_json_child, start_json_child
 
-        o2 = finish_json_child(start_json_child(["vh.config_runner", p]), 160 if slow else 60)
+        limit = 300 if o.get("result_timeout", 0) >= 60 else (160 if slow else 60)
+        o2 = finish_json_child(start_json_child(["vh.config_runner", p]), limit)
         return o2 if o2 is not None else {"error": "no output"}
     finally:
         os.unlink(p)
@@ -144,8 +145,10 @@ def body(ctx: Ctx):
             return ran != bool(mo.get("runnable"))
         return False
 
-    redo = [k for k, (mo, out) in enumerate(zip(model, outs)) if suspicious(mo, out)][:12]
-    with ThreadPoolExecutor(max_workers=4) as pool:
+    # (every suspicious one: a cap here once let a configuration that was merely slow - sixteen workers booting on a loaded machine -
+    # through as a failure)
+    redo = [k for k, (mo, out) in enumerate(zip(model, outs)) if suspicious(mo, out)][:80]
+    with ThreadPoolExecutor(max_workers=3) as pool:
         for k, o2 in zip(redo, pool.map(lambda k: run_cfg(cfgs[k], slow=True), redo)):
             outs[k] = o2
             ctx.count("rerun_with_longer_limits")
@@ -193,6 +196,19 @@ def body(ctx: Ctx):
                 diffs.append({"kind": "region_runs", "config": c, "impl": out, "model": mo})
             else:
                 known.setdefault(reg, []).append(c)
+    # a failure that rests on a time limit counts only when it shows again in a run of its own, alone, with long limits
+    confirmed = []
+    for f in fails[:6]:
+        if f.get("what"):            # decided by an exception class, not by a time limit
+            confirmed.append(f)
+            continue
+        o3 = run_cfg(dict(f["config"], result_timeout=60, shutdown_timeout=60), slow=False)
+        ctx.count("failure_confirmation_runs")
+        if "error" in o3 or not (o3.get("result") == "ok" and o3.get("shutdown") == "returned"):
+            confirmed.append(dict(f, confirmation_run=o3))
+        else:
+            ctx.count("failure_not_confirmed")
+    fails = confirmed + fails[6:]
     ctx.oblige("correspondence: accept / reject and the exception class at construction and at submit = Config.construct / submitCheck; "
                "configurations in a listed region do fail to run", not diffs, f"{len(cfgs)} configurations")
     ctx.oblige("every accepted configuration outside the listed regions ran the call and shut down (Runnable)", not fails)
